@@ -5,7 +5,7 @@ use std::sync::Arc;
 use std::{fs, io};
 
 use crate::FileId;
-use dashmap::DashSet;
+use dashmap::DashMap;
 use ignore::gitignore::{Gitignore, GitignoreBuilder};
 use rayon::Scope;
 
@@ -152,7 +152,8 @@ pub struct Walk<'a> {
 /// Private shared state scoped to a single `run` invocation.
 struct WalkState<F> {
     pub consumer: F,
-    pub visited: DashSet<u128>,
+    /// Visited paths with the smallest nesting level they were visited at
+    pub visited: DashMap<u128, usize>,
 }
 
 impl<'a> Walk<'a> {
@@ -186,7 +187,7 @@ impl<'a> Walk<'a> {
     {
         let state = WalkState {
             consumer,
-            visited: DashSet::new(),
+            visited: DashMap::new(),
         };
         rayon::scope(|scope| {
             let ignore = if self.no_ignore {
@@ -284,14 +285,14 @@ impl<'a> Walk<'a> {
             }
         }
 
-        // Skip already visited paths. We're checking only when follow_links is true,
-        // because inserting into a shared hash set is costly.
-        if self.follow_links && !state.visited.insert(entry.path.hash128()) {
+        // Skip entries ignored by .gitignore
+        if !self.no_ignore && gitignore.matches(&entry.path, entry.tpe == EntryType::Dir) {
             return;
         }
 
-        // Skip entries ignored by .gitignore
-        if !self.no_ignore && gitignore.matches(&entry.path, entry.tpe == EntryType::Dir) {
+        // Skip already visited paths. We're checking only when follow_links is true,
+        // because inserting into a shared hash map is costly.
+        if self.follow_links && !self.mark_visited(&entry, level, state) {
             return;
         }
 
@@ -301,6 +302,28 @@ impl<'a> Walk<'a> {
             EntryType::SymLink => self.visit_link(entry.path, dev, scope, level, gitignore, state),
             EntryType::Other => {}
         }
+    }
+
+    /// Records a visit of the entry. Returns false if the entry needs no visit, because
+    /// it has been visited before. A directory or a link reached again at a smaller nesting level
+    /// than before is visited again, because more of its subtree is within the depth limit now.
+    fn mark_visited<F>(&self, entry: &Entry, level: usize, state: &WalkState<F>) -> bool {
+        let mut visit = false;
+        state
+            .visited
+            .entry(entry.path.hash128())
+            .and_modify(|visited_level| {
+                let depth_limited = self.depth != usize::MAX;
+                if depth_limited && entry.tpe != EntryType::File && level < *visited_level {
+                    *visited_level = level;
+                    visit = true;
+                }
+            })
+            .or_insert_with(|| {
+                visit = true;
+                level
+            });
+        visit
     }
 
     /// If file matches selection criteria, sends it to the consumer
